@@ -12,7 +12,7 @@ use std::time::Duration;
 use bytes::{Bytes, BytesMut};
 use futures::{FutureExt, SinkExt, StreamExt};
 use parking_lot::Mutex;
-use ratchet::{Message, NoExt, Role, WebSocket, WebSocketConfig};
+use ratchet::{NoExt, Role, WebSocket, WebSocketConfig};
 use swimos_api::address::RelativeAddress;
 use swimos_messages::protocol::{
     Notification, Operation, RawRequestMessageDecoder, RawRequestMessageEncoder, RawResponseMessageDecoder, RawResponseMessageEncoder,
@@ -201,7 +201,9 @@ async fn run(plane: &[usize], ops: &[Op]) -> Result<Vec<String>, String> {
     let (server, client) = duplex(BUF);
     let config = WebSocketConfig::default();
     let server = WebSocket::from_upgraded(config, server, Some(NoExt), BytesMut::new(), Role::Server);
-    let client = WebSocket::from_upgraded(config, client, Some(NoExt), BytesMut::new(), Role::Client);
+    // the peer speaks the web socket framing by hand: it sends text messages whole or in fragments, with ping / pong
+    // frames between the fragments (as any peer may), and reads the frames of the task
+    let (mut raw_rx, mut raw_tx) = tokio::io::split(client);
     let (stop_tx, stop_rx) = trigger::trigger();
     let (attach_tx, attach_rx) = mpsc::channel(16);
     let (find_tx, mut find_rx) = mpsc::channel::<FindNode>(16);
@@ -239,22 +241,104 @@ async fn run(plane: &[usize], ops: &[Op]) -> Result<Vec<String>, String> {
         }
     });
     // the peer
-    let (mut sock_tx, mut sock_rx) = client.split().map_err(|e| format!("split failed: {:?}", e))?;
     let written: Arc<Mutex<Vec<String>>> = Default::default();
     let written2 = written.clone();
     tokio::spawn(async move {
-        let mut buf = BytesMut::new();
-        loop {
-            match sock_rx.read(&mut buf).await {
-                Ok(Message::Text) => {
-                    written2.lock().push(String::from_utf8_lossy(buf.as_ref()).to_string());
-                    buf.clear();
+        use tokio::io::AsyncReadExt;
+        let mut buf: Vec<u8> = vec![];
+        let mut message: Vec<u8> = vec![];
+        let mut chunk = [0u8; 4096];
+        'outer: loop {
+            // frames of a server are not masked: byte 0 fin + opcode, byte 1 length (126: 16 bits, 127: 64 bits follow)
+            loop {
+                if buf.len() < 2 {
+                    break;
                 }
-                Ok(Message::Close(_)) | Err(_) => break,
-                Ok(_) => buf.clear(),
+                let (fin, opcode) = (buf[0] & 0x80 != 0, buf[0] & 0x0f);
+                let (len, head) = match buf[1] & 0x7f {
+                    126 if buf.len() >= 4 => (u16::from_be_bytes([buf[2], buf[3]]) as usize, 4),
+                    127 if buf.len() >= 10 => (u64::from_be_bytes(buf[2..10].try_into().unwrap()) as usize, 10),
+                    126 | 127 => break,
+                    n => (n as usize, 2),
+                };
+                if buf.len() < head + len {
+                    break;
+                }
+                let payload: Vec<u8> = buf[head..head + len].to_vec();
+                buf.drain(..head + len);
+                match opcode {
+                    0x0 | 0x1 => {
+                        message.extend_from_slice(&payload);
+                        if fin {
+                            written2.lock().push(String::from_utf8_lossy(&message).to_string());
+                            message.clear();
+                        }
+                    }
+                    0x8 => break 'outer,
+                    _ => {} // pings, pongs, binary
+                }
+            }
+            match raw_rx.read(&mut chunk).await {
+                Ok(0) | Err(_) => break,
+                Ok(n) => buf.extend_from_slice(&chunk[..n]),
             }
         }
     });
+    // one masked frame of a client
+    fn client_frame(fin: bool, opcode: u8, payload: &[u8]) -> Vec<u8> {
+        let mask = [0x1f, 0x2e, 0x3d, 0x4c];
+        let mut frame = vec![if fin { 0x80 | opcode } else { opcode }];
+        if payload.len() < 126 {
+            frame.push(0x80 | payload.len() as u8);
+        } else {
+            frame.push(0x80 | 126);
+            frame.extend_from_slice(&(payload.len() as u16).to_be_bytes());
+        }
+        frame.extend_from_slice(&mask);
+        frame.extend(payload.iter().enumerate().map(|(i, b)| b ^ mask[i % 4]));
+        frame
+    }
+    // a text message, whole or cut into fragments (at character boundaries) with control frames in between
+    let mut sent_texts = 0usize;
+    let mut text_frames = |text: &str| -> Vec<u8> {
+        sent_texts += 1;
+        let bytes = text.as_bytes();
+        let cut = |at: usize| {
+            let mut p = at.min(bytes.len());
+            while !text.is_char_boundary(p) {
+                p -= 1;
+            }
+            p
+        };
+        let mut out = vec![];
+        match sent_texts % 5 {
+            1 if bytes.len() >= 2 => {
+                let p = cut(bytes.len() / 2);
+                out.extend(client_frame(false, 0x1, &bytes[..p]));
+                out.extend(client_frame(true, 0x0, &bytes[p..]));
+            }
+            2 if bytes.len() >= 2 => {
+                let p = cut(bytes.len() / 3 + 1);
+                out.extend(client_frame(false, 0x1, &bytes[..p]));
+                out.extend(client_frame(true, 0x9, b"ping!"));
+                out.extend(client_frame(true, 0x0, &bytes[p..]));
+            }
+            3 if bytes.len() >= 3 => {
+                let (p, q) = (cut(bytes.len() / 3), cut(2 * bytes.len() / 3));
+                out.extend(client_frame(false, 0x1, &bytes[..p]));
+                out.extend(client_frame(true, 0xA, b""));
+                out.extend(client_frame(false, 0x0, &bytes[p..q]));
+                out.extend(client_frame(true, 0x9, b"x"));
+                out.extend(client_frame(true, 0x0, &bytes[q..]));
+            }
+            4 => {
+                out.extend(client_frame(true, 0x9, b"between"));
+                out.extend(client_frame(true, 0x1, bytes));
+            }
+            _ => out.extend(client_frame(true, 0x1, bytes)),
+        }
+        out
+    };
     let mut dls: BTreeMap<u64, Downlink> = BTreeMap::new();
     let mut outs = vec![];
     let mut stopped = false;
@@ -295,10 +379,19 @@ async fn run(plane: &[usize], ops: &[Op]) -> Result<Vec<String>, String> {
                         k.tx = None;
                     }
                 }
-                Op::InReq(q) => sock_tx.write_text(text_of_req(q)).await.map_err(|e| format!("socket write failed: {:?}", e))?,
-                Op::InResp(p) => sock_tx.write_text(text_of_resp(p)).await.map_err(|e| format!("socket write failed: {:?}", e))?,
+                Op::InReq(q) => {
+                    use tokio::io::AsyncWriteExt;
+                    let frames = text_frames(&text_of_req(q));
+                    raw_tx.write_all(&frames).await.map_err(|e| format!("socket write failed: {:?}", e))?
+                }
+                Op::InResp(p) => {
+                    use tokio::io::AsyncWriteExt;
+                    let frames = text_frames(&text_of_resp(p));
+                    raw_tx.write_all(&frames).await.map_err(|e| format!("socket write failed: {:?}", e))?
+                }
                 Op::InBad => {
-                    sock_tx.write_text("@event(node:\"/a\"").await.map_err(|e| format!("socket write failed: {:?}", e))?;
+                    use tokio::io::AsyncWriteExt;
+                    raw_tx.write_all(&client_frame(true, 0x1, b"@event(node:\"/a\"")).await.map_err(|e| format!("socket write failed: {:?}", e))?;
                     stopped = true;
                 }
                 Op::AgentSend(n, p) => {
@@ -564,7 +657,7 @@ fn main() {
     let meta = J::obj(vec![
         ("evaluations", J::I(w.len() as i128)),
         ("distinct_nontrivial", J::I(nontrivial as i128)),
-        ("rule", J::s("the real RemoteTask over an in-memory web socket (ratchet over a tokio duplex): up to 6 downlinks (AttachClient::AttachDownlink) and send-only clients (AttachClient::OneWay) attached, the downlinks to addresses drawn from 4 nodes x 3 lanes (names with spaces included), concentrated on one or two nodes; their readers dropped at generated moments; request and response envelopes of every kind written to the socket as text by the real ReconEncoder; the harness answers FindNode for the nodes of the case's plane with channels it keeps the far ends of and sends responses through them; downlinks send requests; optionally an invalid frame last; after every operation everything that arrived at each downlink, each agent and the socket is read and compared with Model/SocketDispatch.v (lock step) and with the registration-list specification (oracle); non-trivial = a response arrived for an address all of whose downlinks had gone while another lane of the same node had a live downlink")),
+        ("rule", J::s("the real RemoteTask over an in-memory web socket (ratchet over a tokio duplex): up to 6 downlinks (AttachClient::AttachDownlink) and send-only clients (AttachClient::OneWay) attached, the downlinks to addresses drawn from 4 nodes x 3 lanes (names with spaces included), concentrated on one or two nodes; their readers dropped at generated moments; request and response envelopes of every kind written to the socket as text by the real ReconEncoder, by a peer that frames by hand: whole, in two or three fragments, with ping / pong frames between the fragments or before the message; the harness answers FindNode for the nodes of the case's plane with channels it keeps the far ends of and sends responses through them; downlinks send requests; optionally an invalid frame last; after every operation everything that arrived at each downlink, each agent and the socket is read and compared with Model/SocketDispatch.v (lock step) and with the registration-list specification (oracle); non-trivial = a response arrived for an address all of whose downlinks had gone while another lane of the same node had a live downlink")),
         ("structures", J::counts(&kinds)),
         ("samples", J::A(samples)),
         ("direct_failures", J::A(failures.iter().take(40).map(|f| J::s(f.chars().take(600).collect::<String>())).collect())),
